@@ -480,6 +480,9 @@ def _infer_dtype(data):
             return np.dtype('uint8')
         else:
             return np.dtype('int8')
+    if data and isinstance(data[0], str):
+        # Fixed width numpy strings can't represent trailing null characters
+        return np.dtype('O')
     return None
 
 
